@@ -526,6 +526,31 @@ def run(ctx):
     from .c05 import check_generated_value_tests
     check_generated_value_tests(ctx, "R15.8")
 
+    # ------------------------------------------------------------------ R15.9 a replace-style copy of a grouped record shares no member with the original
+    ctx.rule("R15.9", "GroupedRecord._replace builds EVERY member of the copy through its class constructor: a member handed over as it is would be shared, and "
+                      "GroupedRecord.__setattr__ forwards assignments to the owning member - an assignment on the copy would then change the original")
+    grp9 = prog.methods_of(prog.cls("flow.record.base.GroupedRecord")).get("_replace")
+    if grp9 is None:
+        raise AnalysisError("R15.9: GroupedRecord._replace not found")
+    loopvars9 = {x.id for n in ast.walk(grp9) if isinstance(n, (ast.For, ast.comprehension)) and "records" in norm(n.iter) for x in ast.walk(n.target) if isinstance(x, ast.Name)}
+    shared9 = []
+    n_app9 = 0
+    for c9 in calls_in(grp9, nested=True):
+        if isinstance(c9.func, ast.Attribute) and c9.func.attr == "append" and len(c9.args) == 1:
+            n_app9 += 1
+            if isinstance(c9.args[0], ast.Name) and c9.args[0].id in loopvars9:
+                shared9.append(c9)
+    for n in ast.walk(grp9):
+        if isinstance(n, (ast.ListComp, ast.GeneratorExp)):
+            n_app9 += 1
+            if isinstance(n.elt, ast.Name) and n.elt.id in loopvars9:
+                shared9.append(n)
+            if isinstance(n.elt, ast.IfExp) and any(isinstance(b, ast.Name) and b.id in loopvars9 for b in (n.elt.body, n.elt.orelse)):
+                shared9.append(n)
+    ctx.floor("R15.9", "member constructions in GroupedRecord._replace", n_app9, 1)
+    ctx.check(not shared9, "R15.9", "GroupedRecord._replace:fresh-members", f"`{norm(shared9[0])[:60] if shared9 else ''}` puts a member of the original into the copy unchanged: the two grouped "
+              "records then share it", shared9[0] if shared9 else grp9, "every member is rebuilt with record.__class__(...)", key="R15.9:GroupedRecord._replace:shares-members")
+
 
 
 def _is_self_state(expr, params, is_method) -> bool:
